@@ -61,13 +61,13 @@ CLAIMED = {
         "DESIGN.md §4 C20",
     ),
     "C10": (
-        "Stateful property testing with injected faults on the full hub (3 pairs incl. a cw20 leg, 3 vaults, pool router with generated 1- and 2-hop routes, collector, distributor, lair): generated histories create fee states (zero, <= 1000, above) through real swaps and router flash loans, change the take rate over {inactive, 0, 1e-18, 0.1, ~1, random} with/without a DAO address, add/remove routes, disable swaps on a pair (simulation passes, execution fails), de-register or drain pairs, donate to the collector, call ForwardFees from non-distributors, and create epochs. Each NewEpoch is judged against a conservation oracle: failure => whole world snapshot unchanged; success => pending fees of registered pairs/vaults collected (sub-threshold entries kept), every non-distribution asset in the collector either untouched or fully swapped, router empty, DAO delta == floor(rate * forwarded balance) iff active and recorded in TakeRateHistory, distributor inflow == new epoch total - rolled-over remainder, collector's distribution-asset balance 0. A successful NewEpoch must not leave behind an asset that is above the aggregation threshold, listed by a registered pool or vault, routed and simulable (the swap step must then have been attempted, and a failed step undoes everything).",
+        "Stateful property testing with injected faults on the full hub (3 pairs incl. a cw20 leg, 3 vaults, pool router with generated 1- and 2-hop routes, collector, distributor, lair): generated histories create fee states (zero, <= 1000, above) through real swaps and router flash loans, change the take rate over {inactive, 0, 1e-18, 0.1, ~1, random} with/without a DAO address, add/remove routes, disable swaps on a pair (simulation passes, execution fails), de-register or drain pairs, donate to the collector, call ForwardFees from non-distributors, and create epochs. Each NewEpoch is judged against a conservation oracle: failure => whole world snapshot unchanged; success => pending fees of registered pairs/vaults collected (sub-threshold entries kept), every non-distribution asset in the collector either untouched or fully swapped, router empty, DAO delta == floor(rate * forwarded balance) iff active and recorded in TakeRateHistory, distributor inflow == new epoch total - rolled-over remainder, collector's distribution-asset balance 0. A successful NewEpoch must not leave behind an asset that is above the aggregation threshold, listed by a registered pool or vault, routed and simulable (the swap step must then have been attempted, and a failed step undoes everything). NewEpoch is sent as a top-level message or from inside a router flash loan on one of the vaults (the vault may then owe exactly the enclosing loan's own protocol fee).",
         "Protocol fees charged by the aggregation's own swaps are read from swap events (claims validated by C07). Trios are not collected by ForwardFees and are not asserted. cw-multi-test as the chain.",
         "stateful property testing with fault injection and a conservation oracle",
         "DESIGN.md §4 C10",
     ),
     "C11": (
-        "Model-based stateful property testing of the real incentive contract over a cw20 LP, a native-denom LP and the cw20 LP of a real pair (with the real frontend helper): generated histories of opening / expanding positions (declared amount vs exact, smaller, larger or missing funds / allowance; allowed durations and one just outside each bound; optional receivers), closing, withdrawing, helper deposits (user -> helper -> pair -> incentive), flows funded in the LP asset itself, claims, snapshots and epoch advances by four users. Reference model open[user][duration] / closed[user] / LP-flow funds from observed transfers. After every step the contract's LP balance equals the model total exactly, the Positions query equals the model for every user, positions only change by what was actually received, withdrawals pay exactly the caller's closed positions to the caller only, and the helper's LP and asset balances are unchanged by a helper deposit.",
+        "Model-based stateful property testing of the real incentive contract over a cw20 LP, a native-denom LP and the cw20 LP of a real pair (with the real frontend helper): generated histories of opening / expanding positions (declared amount vs exact, smaller, larger or missing funds / allowance; allowed durations and one just outside each bound; optional receivers), closing, withdrawing, helper deposits (user -> helper -> pair -> incentive), flows funded in the LP asset itself, claims, snapshots and epoch advances by four users. Reference model open[user][duration] / closed[user] / LP-flow funds from observed transfers. After every step the contract's LP balance equals the model total exactly, the Positions query equals the model for every user, positions only change by what was actually received, withdrawals pay exactly the caller's closed positions to the caller only, and the helper's LP and asset balances are unchanged by a helper deposit. Helper deposits also attach funds beyond the stated amounts (one unit, double, an unrelated coin); the helper's holdings are compared over the LP, both pool assets and every bank denom.",
         "Native LP = plain bank denom (token-factory builds not exercised). Epoch clock = the repository's fee-distributor mock.",
         "stateful / model-based property testing",
         "DESIGN.md §4 C11",
@@ -97,7 +97,7 @@ CLAIMED = {
         "DESIGN.md §4 C15",
     ),
     "C16": (
-        "Exhaustive matrix enumeration with random payloads: a hand-written table classifies every ExecuteMsg variant of 14 contracts (verified at start-up against the variant names derived from the message schemas, so a new variant cannot be silently missing); every privileged or internal variant x ten caller roles (configured owner, hub owner account, prospective new owner, user, sibling contract, the contract itself, pool factory, vault factory, fee distributor, a registered vault) x {before, after an ownership transfer} is executed against a freshly built full hub as the regression corpus (760 combinations), and random payload details are drawn on top. Unauthorised caller => rejected and full world snapshot (all storage + all balances) unchanged; authorised caller with the canonical payload => accepted; after a transfer the previous owner loses and the new owner gains the rights. A second search runs flash loans whose borrower contract forges the vault's internal Callback(AfterTrade) from inside its own (possibly nested) loan with generated arguments; the borrower's reply handler reports the vault's verdict, which must be 'rejected'. Payloads are caller-aware (NextLoan source_vault in {vault, caller, other} x asset in {registered, unregistered}). Unauthorised attempts also carry reshaped payloads (optional fields left out down to the empty update, owner naming the caller).",
+        "Exhaustive matrix enumeration with random payloads: a hand-written table classifies every ExecuteMsg variant of 14 contracts (verified at start-up against the variant names derived from the message schemas, so a new variant cannot be silently missing); every privileged or internal variant x twelve caller roles (configured owner, hub owner account, prospective new owner, user, sibling contract, the contract itself, pool factory, vault factory, fee distributor, a registered vault, the fee collector's configured take-rate recipient, the creator of an incentive flow) x {before, after an ownership transfer} is executed against a freshly built full hub as the regression corpus (760 combinations), and random payload details are drawn on top. Unauthorised caller => rejected and full world snapshot (all storage + all balances) unchanged; authorised caller with the canonical payload => accepted; after a transfer the previous owner loses and the new owner gains the rights. A second search runs flash loans whose borrower contract forges the vault's internal Callback(AfterTrade) from inside its own (possibly nested) loan with generated arguments; the borrower's reply handler reports the vault's verdict, which must be 'rejected'. Payloads are caller-aware (NextLoan source_vault in {vault, caller, other} x asset in {registered, unregistered}). Unauthorised attempts also carry reshaped payloads (optional fields left out down to the empty update, owner naming the caller).",
         "cw20 token and the test-only distributor mock are outside the table. Router route management is judged with a wasm admin configured. AssertMinimumReceive is judged for effect-freeness. Migrations: only rejection of unauthorised callers.",
         "fault/role enumeration (exhaustive matrix) + property-based payloads, snapshot-diff oracle",
         "DESIGN.md §4 C16",
@@ -115,7 +115,7 @@ CLAIMED = {
         "DESIGN.md §4 C18",
     ),
     "C19": (
-        "Model-based stateful property testing of the three factories and the swap router over a universe of nine assets (five native denoms with registered decimals, four cw20 tokens with different decimals): generated histories of create / remove / re-create of pairs, trios, vaults and incentive contracts with the assets in generated orders, adding / removing / executing 1..3-hop routes (free and built along registered pairs), and paginated listings with limits in 1..31 followed to the end. Reference model = sets of unordered asset sets. Duplicates in any order must be rejected and new sets accepted; each registry entry (queried in every asset order) must equal what the child itself reports; removed entries disappear and can be created again; concatenated pages equal the model set exactly once each; a route is stored only if every hop is a registered pair, and executing a route through a de-registered pair fails.",
+        "Model-based stateful property testing of the three factories and the swap router over a universe of nine assets (five native denoms with registered decimals, four cw20 tokens with different decimals): generated histories of create / remove / re-create of pairs, trios, vaults and incentive contracts with the assets in generated orders, adding / removing / executing 1..3-hop routes (free and built along registered pairs), and paginated listings with limits in 1..31 followed to the end. Reference model = sets of unordered asset sets. Duplicates in any order must be rejected and new sets accepted; each registry entry (queried in every asset order) must equal what the child itself reports; removed entries disappear and can be created again; concatenated pages equal the model set exactly once each; a route is stored only if every hop is a registered pair, and executing a route through a de-registered pair fails. Directed shapes: a registered trio attempted again in any asset order, removed and re-created in another; paged walks of pairs / trios / vaults during which the entry serving as the cursor is removed between two pages (every entry registered when the walk began must still be listed exactly once).",
         "Fixed-length asset names (key collisions are outside the statement). Incentive factory has no remove message. Routes are keyed by asset labels; the universe has distinct labels.",
         "stateful / model-based property testing with a set-valued reference model",
         "DESIGN.md §4 C19",
